@@ -420,7 +420,7 @@ def s4(chk: Check, proj: Project, w) -> None:
     cs = dm.func("_cache_script")
     accepted = set()
     for n in body_walk(cs):
-        if isinstance(n, ast.Compare) and norm(n.left) == "script_type" and isinstance(n.ops[0], ast.In):
+        if isinstance(n, ast.Compare) and norm(n.left) == "script_type" and isinstance(n.ops[0], (ast.In, ast.NotIn)):
             okf, v = proj.try_fold(dm, n.comparators[0])
             if okf:
                 accepted = set(v)
